@@ -134,7 +134,50 @@ def parse_errors(stderr):
     return recs
 
 
+class FrontEnd(Undecided):
+    """The verifier (or rustc inside it) rejected the unit before/without deciding obligations."""
+    def __init__(self, msg, stderr, ex):
+        Undecided.__init__(self, msg)
+        self.stderr = stderr
+        self.ex = ex
+
+
 def run_unit(name, template, vacuity=False, rlimit=200, extra_flags=(), use_cache=True, threads=8):
+    """Partial degradation (DESIGN 5.4): a function whose body cannot be extracted (lost anchor) or that
+    the verifier front end rejects is kept as an *assumed* contract for this run, the unit is rebuilt and
+    every other function is still verified.  The functions so degraded are returned in `degraded`; the
+    driver never reports such a run as proved (it runs the bounded stand-in and prints DEGRADED)."""
+    force = set()
+    last = None
+    for _ in range(6):
+        try:
+            return _run_unit_once(name, template, vacuity, rlimit, extra_flags, use_cache, threads, force)
+        except FrontEnd as e:
+            last = e
+            owners = set()
+            by_range = [(f['unit_lines'][0], f['unit_lines'][1], f) for f in e.ex.functions if f.get('unit_lines')]
+            for rec in parse_errors(e.stderr):
+                if rec['level'] != 'error' or rec['msg'].startswith('aborting due to'):
+                    continue
+                hit = None
+                for ln in rec['spans']:
+                    for a, b, f in by_range:
+                        if a <= ln <= b and not f['assumed']:
+                            hit = f['verus_fn']
+                            break
+                    if hit:
+                        break
+                if hit is None:
+                    raise e          # an error outside any extracted function: cannot localise
+                owners.add(hit[:-5] if hit.endswith('__vac') else hit)
+            new = owners - force
+            if not new:
+                raise e
+            force |= new
+    raise last
+
+
+def _run_unit_once(name, template, vacuity, rlimit, extra_flags, use_cache, threads, force):
     """Returns a dict describing the run.  Raises Undecided for anything that is not a clean
     pass or a genuine failed obligation."""
     t0 = time.time()
@@ -144,7 +187,7 @@ def run_unit(name, template, vacuity=False, rlimit=200, extra_flags=(), use_cach
     unit_name = name + ('_vacuity' if vacuity else '')
     out_path = os.path.join(out_dir, unit_name + '.rs')
     try:
-        ex = extract.build_unit(os.path.join(VERIF, template), out_path, vacuity=vacuity)
+        ex = extract.build_unit(os.path.join(VERIF, template), out_path, vacuity=vacuity, force_assume=force)
     except LostAnchor as e:
         raise Undecided('lost anchor in unit %s: %s' % (name, e))
     except FileNotFoundError as e:
@@ -171,10 +214,10 @@ def run_unit(name, template, vacuity=False, rlimit=200, extra_flags=(), use_cach
     try:
         j = json.loads(raw['stdout'])
     except ValueError:
-        raise Undecided('verus produced no JSON for unit %s: %s' % (name, raw['stderr'][-800:]))
+        raise FrontEnd('verus produced no JSON for unit %s: %s' % (name, raw['stderr'][-800:]), raw['stderr'], ex)
     vr = j.get('verification-results', {})
-    if vr.get('encountered-vir-error'):
-        raise Undecided('verus front-end error in unit %s: %s' % (name, raw['stderr'][-1500:]))
+    if vr.get('encountered-vir-error') or (not vr and re.search(r'(?m)^error', raw['stderr'])):
+        raise FrontEnd('verus front-end error in unit %s: %s' % (name, raw['stderr'][-1500:]), raw['stderr'], ex)
     fb = {}
     smt = j.get('times-ms', {}).get('smt', {})
     for m in smt.get('smt-run-module-times', []):
@@ -184,7 +227,7 @@ def run_unit(name, template, vacuity=False, rlimit=200, extra_flags=(), use_cach
             e['success'] = e['success'] and bool(f['success'])
             e['time_ms'] += f.get('time', 0)
     if not fb:
-        raise Undecided('unit %s: verus reported no verified functions: %s' % (name, raw['stderr'][-1500:]))
+        raise FrontEnd('unit %s: verus reported no verified functions: %s' % (name, raw['stderr'][-1500:]), raw['stderr'], ex)
     # ---- attribute diagnostics to functions / clauses --------------------------------------
     lines = text.split('\n')
     by_range = [(f['unit_lines'][0], f['unit_lines'][1], f) for f in ex.functions if f.get('unit_lines')]
@@ -196,6 +239,10 @@ def run_unit(name, template, vacuity=False, rlimit=200, extra_flags=(), use_cach
         return None
 
     failures = []
+    # functions without a verdict in this run: the others are still decided (verification is modular:
+    # callers were checked against these functions' contracts, not their bodies)
+    degraded = [dict(function=f['verus_fn'], reason='body not verified this run: ' + f['lost'])
+                for f in ex.functions if f.get('lost')]
     for rec in parse_errors(raw['stderr']):
         if rec['level'] != 'error':
             continue
@@ -203,10 +250,16 @@ def run_unit(name, template, vacuity=False, rlimit=200, extra_flags=(), use_cach
         if msg.startswith('aborting due to'):
             continue
         if not any(msg.startswith(k) or k in msg for k in FAIL_KINDS):
-            raise Undecided('unit %s: verifier diagnostic that is not a failed obligation: %s\n%s'
-                            % (name, msg, '\n'.join(rec['text'][:12])))
+            raise FrontEnd('unit %s: verifier diagnostic that is not a failed obligation: %s\n%s'
+                           % (name, msg, '\n'.join(rec['text'][:12])), raw['stderr'], ex)
         if any(k in msg for k in ('Resource limit', 'rlimit')):
-            raise Undecided('unit %s: solver resource limit: %s' % (name, msg))
+            fo = None
+            for ln in rec['spans']:
+                fo = fo or owner(ln)
+            if fo is None:
+                raise Undecided('unit %s: solver resource limit: %s' % (name, msg))
+            degraded.append(dict(function=fo['verus_fn'], reason='solver resource limit (rlimit %s)' % rlimit))
+            continue
         spans = rec['spans']
         f = None
         tags = []
@@ -228,10 +281,10 @@ def run_unit(name, template, vacuity=False, rlimit=200, extra_flags=(), use_cach
                              text='\n'.join(rec['text'][:25])))
     # rlimit/timeouts can also show up as a function with success=false and no diagnostic
     failed_fns = [k for k, v in fb.items() if not v['success']]
-    diag_fns = set(x['function'] for x in failures)
+    diag_fns = set(x['function'] for x in failures) | set(d['function'] for d in degraded)
     for fn in failed_fns:
         if fn not in diag_fns and any(fn == f['verus_fn'] for f in ex.functions):
-            raise Undecided('unit %s: %s failed without a diagnostic (solver limit?)' % (name, fn))
+            degraded.append(dict(function=fn, reason='failed without a diagnostic (solver limit?)'))
     functions = []
     for f in ex.functions:
         st = fb.get(f['verus_fn'])
@@ -241,6 +294,6 @@ def run_unit(name, template, vacuity=False, rlimit=200, extra_flags=(), use_cach
     return dict(unit=unit_name, template=template, path=out_path, sha=key, cache_hit=cache_hit,
                 cmd=raw.get('cmd'), verus_version=ver, verified=vr.get('verified'), errors=vr.get('errors'),
                 smt_ms=smt.get('total'), solver_wall_s=raw.get('wall_s'), wall_s=round(time.time() - t0, 2),
-                functions=functions, lemmas=lemma_fns, failures=failures,
+                functions=functions, lemmas=lemma_fns, failures=failures, degraded=degraded,
                 rules=sorted(ex.rules_used), rule_docs={r: rules.DOC.get(r, '') for r in sorted(ex.rules_used)},
                 trusted=scan_trusted(text), lint_borrow_mut=lint_borrow_mut(text))
